@@ -6,6 +6,9 @@ import (
 )
 
 func (p *Pool) Run(ctx context.Context) {
+	p.stopM.Lock()
+	defer p.stopM.Unlock()
+
 	if !p.runM.TryLock() {
 		slog.Warn("worker pool already running")
 		return
